@@ -66,5 +66,14 @@ def stamp_sometimes():
     return p, ops
 
 
+def override_then_removed():
+    """A generated file is edited by hand, a build records the override, then the user deletes the file: it is a target again
+    (listed by redo-targets, listed by redo-ood, rebuilt by the next build)."""
+    p = _prog(['s0'], [('mid', dict(deps=['s0'])), ('top', dict(deps=['mid'])), ('other', dict(deps=['s0']))])
+    ops = [B(['top', 'other']), ('uwrite', 'mid', 'inplace'), B(['top']), ('urm', 'mid'), B(['other']), B(['top']), B(['top']),
+           ('uwrite', 'other', 'replace'), B(['other']), ('urm', 'other'), ('edit_r', 's0'), B(['top', 'other'])]
+    return p, ops
+
+
 SCENARIOS = dict((f.__name__, f) for f in (tolerated_failure_same_checksum, tolerated_failure_plain, forced_after_check_same_command,
-                                           oob_dependency_fails_before_or_after, stamp_chain_edit_cycle, stamp_sometimes))
+                                           oob_dependency_fails_before_or_after, stamp_chain_edit_cycle, stamp_sometimes, override_then_removed))
